@@ -153,11 +153,11 @@ TaskOf(s, n) == s.tasks[CHOOSE i \in DOMAIN s.tasks : s.tasks[i].name = n]
 Defined(s, n) == \E i \in DOMAIN s.tasks : s.tasks[i].name = n
 NoDup(q) == \A i, j \in DOMAIN q : i # j => q[i] # q[j]
 FirstIdx(q, x) == CHOOSE i \in DOMAIN q : q[i] = x /\ \A j \in DOMAIN q : q[j] = x => i <= j
-JsonRun(s, st, doc) ==
+JsonRun(s, st, doc, clo) ==
   LET names == [i \in DOMAIN doc |-> doc[i].task]
       ranNames == SelectSeq(names, LAMBDA n : ~doc[FirstIdx(names, n)].skipped /\ TaskOf(s, n).cmds # <<>>) IN
   /\ st.exit = 0
-  /\ NoDup(names) /\ SeqRange(names) = SeqRange(s.closure)                         \* exactly the tasks of the run
+  /\ NoDup(names) /\ SeqRange(names) = SeqRange(clo)                               \* exactly the tasks of the run
   /\ \A i \in DOMAIN doc :
         LET t == TaskOf(s, doc[i].task) IN
         IF doc[i].skipped
@@ -176,7 +176,7 @@ Conforms_C20(r) ==
   /\ \A i \in DOMAIN r.steps : r.steps[i].exit >= 0
   /\ \A i \in DOMAIN r.steps :
        LET st == r.steps[i]  v == r.views[i] IN
-       CASE v.mode = "json"  -> v.json_ok /\ JsonRun(s, st, v.doc)
+       CASE v.mode = "json"  -> v.json_ok /\ JsonRun(s, st, v.doc, v.closure)         \* stdout is one JSON document ...
          [] v.mode = "quiet" -> st.exit = 0 /\ st.stdout = ""
          [] v.mode = "show"  -> /\ st.exit = 0
                                 /\ Len(v.rows) = Len(s.tasks)                      \* every defined task once
